@@ -73,8 +73,13 @@ def c13_dup_wrq(v, ctx, tftpd, overwrite, pairs, T=1):
             path = os.path.join(sb["srv"], name)
             now = open(path, "rb").read() if os.path.exists(path) else None
             replay = {"engine": "net", "scenario": "duplicate WRQ", "mode": mode, "name": name, "completed_on_latest_worker": ok, "file_right_after_completion": None if after_complete is None else len(after_complete), "file_after_wait": None if now is None else len(now)}
-            if not ok or after_complete != content:
-                v.note_inconclusive(f"dup-WRQ {mode} {name}: upload on the latest worker did not complete cleanly")
+            if not ok:
+                v.note_inconclusive(f"dup-WRQ {mode} {name}: an ACK of the latest worker did not arrive (watchdog)")
+                continue
+            if after_complete != content:
+                # the earlier worker's late File::create truncated the file the latest worker was writing
+                v.violation(f"C13/net/dup-WRQ/{mode}/latest-completes/earlier-worker-creates-late/file-altered",
+                            f"{mode}: every block of {name} was acknowledged by the most recently accepted worker, yet right after the final ACK the file ({None if after_complete is None else len(after_complete)} bytes) differs from the {len(content)} bytes sent (the earlier worker's late File::create truncated it while it was being written)", replay)
                 continue
             if now == content:
                 out["intact"] += 1
